@@ -20,7 +20,7 @@ func init() {
 		ID:         "C14",
 		Title:      "slicez set operations, in-place variants and FlexSlice match their definitions",
 		Quick:      30000,
-		Thorough:   600000,
+		Thorough:   2000000,
 		Gen:        gen,
 		Corpus:     corpus,
 		Impl:       impl,
@@ -630,7 +630,7 @@ func genFlex(r *core.Rand) core.Case {
 	for i := 0; i < n; i++ {
 		w := []int{22, 18, 8, 12, 12, 10, 5, 4, 3}
 		if mode == 1 { // draining phases: cross the shrink threshold
-			w = []int{8, 8, 6, 20, 22, 20, 5, 4, 3}
+			w = []int{4, 4, 4, 22, 28, 26, 5, 4, 3}
 		}
 		if i < 3 && mode != 2 { // start with a burst so capacity passes 8
 			w = []int{50, 50, 0, 0, 0, 0, 0, 0, 0}
@@ -640,7 +640,7 @@ func genFlex(r *core.Rand) core.Case {
 		}
 		switch r.Pick(w...) {
 		case 0:
-			k := []int{0, 1, 1, 2, 3, 5, 9, 17}[r.Intn(8)]
+			k := []int{0, 1, 1, 2, 3, 5, 9, 17, 33}[r.Intn(9)]
 			emit("append %s", vals(k))
 			size += k
 		case 1:
@@ -650,7 +650,11 @@ func genFlex(r *core.Rand) core.Case {
 		case 2:
 			emit("get %d", r.Range(-2, size+2))
 		case 3:
-			emit("remove %d", r.Range(-1, size+1))
+			if r.Chance(80) && size > 0 {
+				emit("remove %d", r.Range(0, size-1))
+			} else {
+				emit("remove %d", r.Range(-1, size+1))
+			}
 			if size > 0 {
 				size--
 			}
